@@ -437,6 +437,12 @@ def isLoneVoid : DType → Bool
   | .type (.mk [s] _ _) _ _ => s.nameAttr = some "void"
   | _ => false
 
+/-- `convert fn(void) to fn()`: the tail of `_parse_parameters` -/
+def applyVoidOption (convert : Bool) (params : List Param) : List Param :=
+  match params with
+  | [p0] => if convert && isLoneVoid p0.type then [] else params
+  | _ => params
+
 /-- `_parse_parameters(concept_ok)` -/
 def parseParametersStep (F : Nat) (rec : Core) (conceptOk : Bool) :
     M (List Param × Bool × List TemplateParam) := do
@@ -457,11 +463,8 @@ def parseParametersStep (F : Nat) (rec : Core) (conceptOk : Bool) :
             | none => atParams
           let tok ← nextTokenMustBe [",", ")"]
           if tok.value = ")" then pure (.inr (params, false, atParams)) else pure (.inl (params, atParams)))
-    let opts ← getOpts
-    let params := match params with
-      | [p0] => if opts.convertVoidToZeroParams && isLoneVoid p0.type then [] else params
-      | _ => params
-    pure (params, vararg, atParams)
+    let convert ← getConvertVoid
+    pure (applyVoidOption convert params, vararg, atParams)
 
 /-- `_parse_template_type_parameter(tok, template)` -/
 def parseTemplateTypeParameter (F : Nat) (tok : CTok) (template : Option TemplateDecl) : M TemplateParam := do
